@@ -6,7 +6,7 @@ for the lockstep correspondence (`pool` driver component), program generators, s
 bounded-preemption DFS and replay.
 
 Program (JSON-able):
-  {"max": 3, "min": 0, "qsize": 0, "klass": "L1|L2|G|W", "clients": [[op, ...], ...]}
+  {"max": 3, "min": 0, "qsize": 0, "klass": "L1|L2|G|R|W", "clients": [[op, ...], ...]}
   op = ["start"] | ["stop"] | ["clear"] | ["join"] | ["join_t"] | ["enq", kind, gate] | ["wait", k] | ["open", gate]
   kind = "ret" | "raise" | "gwait" (blocks on the gate, then returns) | "gopen" (opens the gate, then returns)
   ["wait", k] waits (with a timeout) for the k-th future obtained by the same client.
@@ -554,6 +554,21 @@ class Run(object):
                 td_call = [c for c in self.calls if c.api == "stop"][-1]
                 if self.program.get("drains") and t.accepted_at < td_call.begin:
                     self.violate("C09", "never-executed", "task %d accepted on a pool that was started and drained, but dropped" % t.id)
+            if self.klass == "R" and self.program.get("drains") and t.accepted_at is not None and t.dropped:
+                # class R: c0 stops and restarts the pool, then waits (with time-outs, i.e. until quiescence, every gate
+                # being opened by then) for what it enqueued: a task accepted after the return of the last stop() of the
+                # program and before the tear-down stop() met a pool that was (re)started and never stopped before it
+                # could begin, so it must have been executed, not dropped by the tear-down.
+                stops = [c for c in self.calls if c.api == "stop"]
+                td_call = stops[-1]
+                last_end = max([c.end for c in stops[:-1] if c.end is not None] or [-1])
+                restarted = any(c.api == "start" and c.end is not None and c.begin > last_end and c.end < td_call.begin
+                                for c in self.calls)
+                if restarted and last_end < t.accepted_at < td_call.begin and all(c.end is not None for c in stops):
+                    self.violate("C09", "never-executed",
+                                 "task %d accepted after the last stop() of the program returned, on a pool that was restarted "
+                                 "and drained (time-outs expire at quiescence only), was never executed (dropped by the tear-down)"
+                                 % t.id)
 
     # ---- translation for the lockstep correspondence ----------------------------------------------
     def model_tokens(self):
@@ -608,11 +623,15 @@ def gen_program(rng, klass=None):
     G : L2 with gate-dependent tasks (waiters whose gate is opened by another *task*), at most max-1 such waiters;
         every client enqueues first and blocks afterwards, unbounded queue: never a deadlock by construction.
     W : anything on any thread (concurrent start/stop/clear): lockstep correspondence and the pure safety monitors only.
+    R : restart after a busy stop (gen_restart): stop() while a gate-blocked task runs, start again, enqueue, wait.
+    (GR: gen_gate_race, a shape of class G.)
     """
     if klass is None:
         klass = rng.choice(["L1", "L1", "L2", "G", "G", "W"])
     if klass == "GR":
         return gen_gate_race(rng)
+    if klass == "R":
+        return gen_restart(rng)
     mx, mn, qs = gen_config(rng, bounded_ok=(klass != "G"))
     nclients = rng.choice([1, 2, 2, 3])
     budget = rng.randint(3, 8)
@@ -748,6 +767,107 @@ def gen_gate_race(rng):
     return {"max": mx, "min": 0, "qsize": 0, "klass": "G", "clients": scripts, "drains": False}
 
 
+def _plain(rng):
+    return ["enq", rng.choice(["ret", "ret", "raise"]), None]
+
+
+def gen_restart(rng, cfg=None):
+    """
+    Class R (restart after a busy stop): the controlling thread c0 starts the pool, enqueues a task that blocks on gate 0
+    (and possibly others), calls stop() - which, when the blocked task is already running, returns only after the last
+    client (which does nothing but open gate 0; schedules usually keep it back until every other thread is blocked) has
+    opened the gate: the busy worker then leaves on the stop flag and its stop marker stays in the queue for clear() -,
+    possibly enqueues while stopped, starts the pool AGAIN, enqueues k tasks (independent, or up to max-1 waiters on
+    gate 1 plus the task that opens it: mutually dependent, they need the pool to grow) and finally waits for them with
+    time-outs (wait for each future / join(timeout)) or join().  Optionally another client enqueues one task of its own
+    at any moment.  Every gate is opened by a client that never blocks or by a task, all waits expire at quiescence only:
+    the program drains, whatever the schedule.
+    """
+    mx, mn = cfg if cfg is not None else rng.choice([(1, 0), (1, 0), (2, 0), (2, 0), (3, 0), (3, 0), (2, 1), (3, 1), (1, 1), (3, 2)])
+    c0 = []
+    if rng.random() < 0.15:
+        c0.append(_plain(rng))  # accepted before the first start
+    c0.append(["start"])
+    pre = [["enq", "gwait", 0]]
+    for _ in range(rng.choice([0, 0, 1])):
+        pre.append(rng.choice([["enq", "ret", None], ["enq", "gwait", 0], ["enq", "raise", None]]))
+    rng.shuffle(pre)
+    c0.extend(pre)
+    c0.append(["stop"])
+    if rng.random() < 0.15:
+        c0.append(["stop"])  # redundant
+    first_after = len([o for o in c0 if o[0] == "enq"])
+    if rng.random() < 0.25:
+        c0.append(_plain(rng))  # accepted between the stop and the restart
+    c0.append(["start"])
+    if rng.random() < 0.1:
+        c0.append(["start"])  # redundant
+    post = []
+    if mx >= 2 and rng.random() < 0.6:
+        post = [["enq", "gwait", 1] for _ in range(rng.randint(1, mx - 1))] + [["enq", "gopen", 1]]
+        if rng.random() < 0.3:
+            rng.shuffle(post)
+    for _ in range(rng.randint(0 if post else 1, 2)):
+        post.insert(rng.randint(0, len(post)), _plain(rng))
+    c0.extend(post)
+    n = len([o for o in c0 if o[0] == "enq"])
+    r = rng.random()
+    if r < 0.5:
+        c0.extend(["wait", k] for k in range(first_after, n))
+    elif r < 0.8:
+        c0.append(["join_t"])
+    else:
+        c0.append(["join"])
+    scripts = [c0]
+    if rng.random() < 0.25:
+        scripts.append([_plain(rng), ["wait", 0]])
+    scripts.append([["open", 0]])
+    return {"max": mx, "min": mn, "qsize": 0, "klass": "R", "clients": scripts, "drains": True}
+
+
+def restart_programs():
+    """The fixed class R programs explored in every run (bounded-preemption DFS, gate opener kept back)."""
+    out = []
+    G0, G1, O1 = ["enq", "gwait", 0], ["enq", "gwait", 1], ["enq", "gopen", 1]
+    R, X = ["enq", "ret", None], ["enq", "raise", None]
+    for mx, mn in [(1, 0), (2, 0), (3, 0), (2, 1)]:
+        def P(c0):
+            out.append({"max": mx, "min": mn, "qsize": 0, "klass": "R", "clients": [c0, [["open", 0]]], "drains": True})
+        P([["start"], G0, ["stop"], ["start"], R, ["wait", 1]])
+        P([["start"], G0, R, ["stop"], X, ["start"], R, ["join_t"]])
+        if mx >= 2:
+            P([["start"], G0, ["stop"], ["start"], G1, O1, ["wait", 1], ["wait", 2]])
+            P([["start"], G0, ["stop"], ["start"], G1, O1, ["join"]])
+        else:
+            P([["start"], G0, ["stop"], ["start"], R, X, ["join"]])
+    return out
+
+
+def window_programs():
+    """
+    Tiny programs (pool started once, never stopped, no gate opened by a client, every wait with a time-out) in which a
+    client enqueues again after an earlier task has finished, i.e. while the worker of that task is going through its
+    retirement decision: explored with a single pre-emption at every step in every run, so that an enqueue() lands in each
+    one-operation window of the worker's epilogue (and of its idle time-out path).
+    """
+    out = []
+    R, X = ["enq", "ret", None], ["enq", "raise", None]
+
+    def P(mx, mn, clients):
+        out.append({"max": mx, "min": mn, "qsize": 0, "klass": "L2", "clients": clients, "drains": True})
+    P(1, 0, [[["start"], R, ["wait", 0], R, ["wait", 1]]])
+    P(2, 0, [[["start"], X, ["wait", 0], R, ["join_t"]]])
+    P(1, 0, [[["start"], R, ["join_t"]], [R, ["wait", 0]]])
+    P(2, 0, [[["start"], ["enq", "gwait", 0], ["enq", "gopen", 0], ["wait", 0], ["wait", 1], R, ["wait", 2]]])
+    P(2, 1, [[["start"], R, R, ["wait", 1], R, ["wait", 2]]])
+    return out
+
+
+def lazy_roles(program):
+    """Roles of the clients that only open gates."""
+    return tuple("c%d" % i for i, sc in enumerate(program["clients"]) if sc and all(op[0] == "open" for op in sc))
+
+
 def gen_chooser(rng, horizon=80):
     r = rng.random()
     if r < 0.4:
@@ -831,7 +951,7 @@ def replay(payload_obj, prop=None):
     return 0
 
 
-def dfs(program, max_preempt=2, max_runs=300, on_run=None):
+def dfs(program, max_preempt=2, max_runs=300, on_run=None, lazy=()):
     """
     Bounded-preemption depth-first exploration: default policy is non-preemptive; at most `max_preempt`
     switches away from a thread that could have continued.  Calls on_run(run) for each execution.
@@ -842,7 +962,7 @@ def dfs(program, max_preempt=2, max_runs=300, on_run=None):
     while stack and runs < max_runs:
         prefix, used = stack.pop()
         ch = sched.PrefixChooser(prefix)
-        r = run_program(program, ch)
+        r = run_program(program, sched.LazyChooser(ch, lazy) if lazy else ch)
         runs += 1
         if on_run is not None and on_run(r):
             return runs
@@ -915,9 +1035,20 @@ class Checker(object):
         self.steps = 0
         self.leaked = 0
         self.lockstep_cap = 6000
+        self.nrecorded = 0
+        self.first_hit = None
+
+    def enough(self):
+        """A failing execution is in hand: go on for at most 150 more executions (other violation keys), stop at three keys."""
+        if not self.ctx.violations:
+            return False
+        if self.first_hit is None:
+            self.first_hit = self.nrecorded
+        return len(self.seen_keys) >= 3 or self.nrecorded - self.first_hit >= 150
 
     def record(self, program, r, chooser_name, lockstep=True):
         ctx = self.ctx
+        self.nrecorded += 1
         self.steps += len(r.s.trace)
         self.leaked += r.leaked
         sw = switches(r.schedule())
@@ -988,7 +1119,10 @@ def check(ctx, pid, mix, quick_runs, thorough_runs, special=None):
         # the tie is already known to be broken: look for a failing input only, with a bounded budget
         n_runs = min(n_runs, 3000)
         ck.lockstep_cap = 0
+    directed(ck, ctx)
     for n in range(n_runs):
+        if ck.enough():
+            break
         x = rng.random() * total
         for w, klass, cfg in mix:
             x -= w
@@ -1002,8 +1136,6 @@ def check(ctx, pid, mix, quick_runs, thorough_runs, special=None):
         name, ch = gen_chooser(rng)
         r = run_program(program, ch)
         ck.record(program, r, name)
-        if ctx.violations and len(ck.seen_keys) >= 3:
-            break
     if special is not None:
         special(ck)
     if ctx.thorough and not ctx.violations:
@@ -1024,14 +1156,69 @@ def check(ctx, pid, mix, quick_runs, thorough_runs, special=None):
     if ck.leaked:
         raise_infra("managed OS threads leaked: %d" % ck.leaked)
     ctx.rule = ("random client programs (classes L1 single controlling thread with stop/restart, L2 started once with join(), "
-                "G gate-dependent tasks, W anything on any thread) x pool sizes max 1..3, min 0..max, queue bound 0/1 x "
-                "schedules (uniform, sticky, PCT depth 1-3; thorough: bounded-preemption DFS over 60 small programs) on the REAL "
+                "G gate-dependent tasks, R stop() during a gate-blocked task then restart and enqueue, W anything on any thread) "
+                "x pool sizes max 1..3, min 0..max, queue bound 0/1 x "
+                "schedules (uniform, sticky, PCT depth 1-3, gate opener kept back for class R; in every run: DFS over the choices "
+                "at blocking points of 15 fixed class R programs and exhaustive single-pre-emption DFS of 2 tiny "
+                "enqueue-after-completion programs; thorough: bounded-preemption DFS over 60 small programs) on the REAL "
                 "ThreadPool under harness/sched.py; every execution is replayed step by step by the Lean model (lockstep "
                 "projections) and checked by the monitors; distinct_nontrivial = distinct (class, max, min, queue bound, set of "
                 "API operations, final status, context-switch bucket)")
     ctx.assumptions.append("harness/sched.py shims of threading.Event/RLock/Lock/Thread and queue.Queue (atomic FIFO with an "
                            "unfinished count and all_tasks_done) stand for CPython's; time-outs expire only at quiescence")
     return ck
+
+
+def directed(ck, ctx):
+    """
+    Histories and windows that random programs / random schedules reach too rarely; part of EVERY run, and independent of
+    the seed for the two fixed lists:
+      1. restart_programs(): DFS without pre-emption (all choices at blocking points); thorough: also one pre-emption;
+      2. window_programs(): the first two exhaustively for one pre-emption at every step; thorough: all five, and two
+         pre-emptions for the first two;
+      3. random class R programs under random schedules, the gate opener kept back in 5 runs out of 6.
+    """
+    def explore(program, max_preempt, max_runs, lazy, every):
+        k = 0
+
+        def on_run(r):
+            nonlocal k
+            k += 1
+            ck.record(program, r, "dfs%d" % max_preempt, lockstep=(k % every == 1))
+            return bool(ctx.violations)
+        return dfs(program, max_preempt=max_preempt, max_runs=max_runs, on_run=on_run, lazy=lazy)
+
+    def bud(q, t):
+        # search stage (tie already broken): a bounded budget, three times the quick one
+        return min(t, 3 * q) if ctx.searching else ctx.budget(q, t)
+
+    nruns = 0
+    deep = ctx.thorough  # thorough tier or search stage
+    for program in restart_programs():
+        lz = lazy_roles(program)
+        nruns += explore(program, 0, 40, lz, 4)
+        if deep and not ctx.violations:
+            nruns += explore(program, 1, bud(25, 100), lz, 6)
+    for k, program in enumerate(window_programs()):
+        if ctx.violations:
+            break
+        if k < 2:
+            # exhaustive for one pre-emption (about 35 executions each)
+            nruns += explore(program, 1, 150, (), 4)
+        if deep and not ctx.violations:
+            nruns += explore(program, 2 if k < 2 else 1, bud(100, 450), (), 8)
+    rng = ctx.derive_rng("class-R")
+    for _ in range(bud(100, 1000)):
+        if ck.enough():
+            break
+        program = gen_restart(rng)
+        name, ch = gen_chooser(rng)
+        if rng.random() < 5.0 / 6:
+            name, ch = name + "+lazy", sched.LazyChooser(ch, lazy_roles(program))
+        r = run_program(program, ch)
+        ck.record(program, r, name)
+        nruns += 1
+    ctx.extra["directed_runs"] = ctx.extra.get("directed_runs", 0) + nruns
 
 
 def gen_program_cfg(rng, klass, cfg):
